@@ -1,1 +1,139 @@
-(* C05 Props — placeholder, filled below *)
+(* C05 — property theorems (statements only; proofs in Proofs*.v).
+   All statements are over the reals (model instance XR = NumXR), for matrices of
+   EVERY size n.  The model is tied to the Go code by the bit-exact replay of
+   Corr.v on every run. *)
+From Coq Require Import Floats Reals List Lia Lra.
+From ADV Require Import Base.Num C05.Model C05.Spec C05.ProofsBase C05.ProofsChol C05.ProofsLdl
+                        C05.ProofsHouse C05.ProofsGivens C05.Refuted.
+Import ListNotations.
+Open Scope R_scope.
+
+(* 1. Cholesky (generic path: Scalar.Sqrt, fast path: SQRT; both are sqrt over R):
+      if the routine returns L with a non-zero diagonal then L is n x n lower
+      triangular and L L^T = A.  (A zero pivot is NOT reported by the code, test
+      t < 0: see Refuted.cholesky_zero_pivot_refuted.) *)
+Theorem cholesky_correct :
+  forall (A L : rmat) (n : nat),
+  dims n n A -> symmetric n A -> cholesky XR A = Some L ->
+  (forall j, (j < n)%nat -> G L j j <> 0) ->
+  dims n n L /\ lower_triangular L /\
+  forall i j, (i < n)%nat -> (j < n)%nat -> LLt n L i j = G A i j.
+Proof. exact cholesky_with_sound. Qed.
+
+Theorem cholesky_fast_correct :
+  forall (A L : rmat) (n : nat),
+  dims n n A -> symmetric n A -> cholesky_fast XR A = Some L ->
+  (forall j, (j < n)%nat -> G L j j <> 0) ->
+  dims n n L /\ lower_triangular L /\
+  forall i j, (i < n)%nat -> (j < n)%nat -> LLt n L i j = G A i j.
+Proof. exact cholesky_with_sound. Qed.
+
+(* the error is raised exactly when the pivot of the current row, as computed by
+   the recurrence from the rows already finished, is negative *)
+Theorem cholesky_row_error_iff_negative_pivot :
+  forall (n : nat) (L : rmat) (arow : list R),
+  chol_row XR sqrt n L arow = None <->
+  (let '(cur, rest) := chol_off XR L arow [] in hd 0 rest - dotl XR cur cur 0 < 0).
+Proof. exact chol_row_none. Qed.
+
+(* 2. LDL^T: L unit lower triangular, D diagonal and positive, L D L^T = A. *)
+Theorem cholesky_ldl_correct :
+  forall (A L D : rmat) (n : nat),
+  dims n n A -> symmetric n A -> cholesky_ldl XR A = Some (L, D) ->
+  unit_lower_triangular n L /\ diagonal D /\ (forall j, (j < n)%nat -> 0 < G D j j) /\
+  forall i j, (i < n)%nat -> (j < n)%nat -> LDLt n L D i j = G A i j.
+Proof. exact cholesky_ldl_sound. Qed.
+
+(* 3. Gill-Murray-Wright: for EVERY square A (no definiteness assumed) the result
+      has D_jj >= delta > 0 with L unit lower triangular (so L D L^T is positive
+      definite), L D L^T agrees with A off the diagonal and dominates it on the
+      diagonal (L D L^T = A + E, E diagonal, E >= 0). *)
+Theorem cholesky_ldl_forcepd_correct :
+  forall (A L D : rmat) (n : nat) (bfloor delta : R),
+  dims n n A -> 0 < delta ->
+  cholesky_ldl_forcepd XR bfloor delta A = Some (L, D) ->
+  unit_lower_triangular n L /\ diagonal D /\
+  (forall j, (j < n)%nat -> delta <= G D j j) /\
+  (forall i j, (j < i)%nat -> (i < n)%nat -> LDLt n L D i j = G A i j) /\
+  (forall j, (j < n)%nat -> G A j j <= LDLt n L D j j).
+Proof. exact cholesky_ldl_forcepd_sound. Qed.
+
+(* "= LDL when the bounds are inactive": proved for the pivot choice of one column
+   (c_jj > 0, c_jj >= delta, c_jj >= (theta_j/beta)^2  ==>  the forced pivot is the
+   LDL pivot); MISSING: lifting through the column loop to equality of the two
+   returned pairs (the loop is the same function [ldl_gen] of the pivot choice). *)
+Theorem forcepd_equals_ldl_when_inactive_partial :
+  forall (n : nat) (beta delta : R) (j : nat) (c : R) (below : list R),
+  0 < c -> delta <= c ->
+  (j <> (n - 1)%nat ->
+   (fold_left (upd_max XR) below (-1) / beta) * (fold_left (upd_max XR) below (-1) / beta) <= c) ->
+  pick_fpd XR n beta delta j c below = pick_ldl XR j c below.
+Proof. exact pick_fpd_inactive. Qed.
+
+(* 4. Householder.  The reflector I - beta v v^T is symmetric, and orthogonal /
+      involutive as soon as beta = 0 or beta v^T v = 2 — for every v and n. *)
+Theorem reflector_symmetric : forall beta v i j, refl beta v i j = refl beta v j i.
+Proof. exact refl_symmetric. Qed.
+
+Theorem reflector_orthogonal :
+  forall (n : nat) (beta : R) (v : list R),
+  beta = 0 \/ beta * dot n v v = 2 ->
+  forall i j, (i < n)%nat -> (j < n)%nat ->
+  sum_n (fun k => refl beta v k i * refl beta v k j) n = delta i j.
+Proof. exact refl_orthogonal. Qed.
+
+(* householder.Run as coded: with sigma = |tail x|^2, it returns beta = 0 and
+   nu = (1, tail) when sigma = 0, else (h_beta, (nu0, tail)/nu0) ... *)
+Theorem householder_run_as_coded :
+  forall (x0 : R) (xt : list R),
+  let sigma := sum_n (fun k => nth k xt 0 * nth k xt 0) (length xt) in
+  house XR (x0 :: xt) =
+  if Reqb sigma 0 then (0, 1 :: xt)
+  else (h_beta x0 sigma, map (fun y => y / h_nu0 x0 sigma) (h_nu0 x0 sigma :: xt)).
+Proof. exact house_as_coded. Qed.
+
+(* ... and these scalars satisfy beta = 2/(nu^T nu) (nu^T nu = 1 + sigma/nu0^2),
+   beta (nu^T x) = nu0, hence (P x)_0 = x0 - beta nu^T x = +|x| and
+   (P x)_i = x_i - beta (nu^T x) x_i/nu0 = 0.
+   MISSING (hence _partial): the last step as an index statement over the list nu. *)
+Theorem householder_scalars_partial :
+  forall (x0 sigma : R), 0 < sigma ->
+  let nu0 := h_nu0 x0 sigma in let beta := h_beta x0 sigma in
+  nu0 <> 0 /\
+  beta * (1 + sigma / (nu0 * nu0)) = 2 /\
+  beta * (x0 + sigma / nu0) = nu0 /\
+  x0 - beta * (x0 + sigma / nu0) = h_mu x0 sigma.
+Proof. exact house_scalars. Qed.
+
+(* 5. Givens: c^2 + s^2 = 1, the rotation zeroes the targeted entry, and the
+      applied 2x2 map preserves inner products (is orthogonal). *)
+Theorem givens_unit_circle :
+  forall a b : R, let cs := givens XR a b in fst cs * fst cs + snd cs * snd cs = 1.
+Proof. exact givens_unit. Qed.
+
+Theorem givens_zeroes_target :
+  forall a b : R, let cs := givens XR a b in snd (giv_apply XR (fst cs) (snd cs) a b) = 0.
+Proof. exact givens_zeroes. Qed.
+
+Theorem givens_apply_orthogonal :
+  forall c s a1 a2 b1 b2 : R, c * c + s * s = 1 ->
+  fst (giv_apply XR c s a1 a2) * fst (giv_apply XR c s b1 b2) +
+  snd (giv_apply XR c s a1 a2) * snd (giv_apply XR c s b1 b2) = a1 * b1 + a2 * b2.
+Proof. exact giv_apply_inner. Qed.
+
+(* the hypotheses are satisfiable by a non-trivial instance *)
+Example cholesky_hyps_satisfiable :
+  dims 2 2 [[4; 2]; [2; 10]] /\ symmetric 2 [[4; 2]; [2; 10]].
+Proof.
+  split.
+  - split; [reflexivity|]. intros row [<-|[<-|[]]]; reflexivity.
+  - intros i j Hi Hj. destruct i as [|[|i]]; destruct j as [|[|j]]; try lia; reflexivity.
+Qed.
+
+(* known findings exhibited by the faithful model *)
+Theorem tridiagonalization_sign_refuted :
+  exists A : C05.Corr.fmat,
+    let r := tridiag NumXF true A in
+    C05.Corr.ofm_eqb (snd r) (Some (ident NumXF 3)) = true /\ C05.Corr.fm_eqb (fst r) A = false /\
+    get NumXF (fst r) 1 0 = 2%float /\ get NumXF A 1 0 = (-2)%float.
+Proof. exact tridiag_sign_refuted. Qed.
